@@ -6,10 +6,10 @@ import arith_catalogue as AC
 from arith_catalogue import V, ev
 
 CAT = AC.load()
-AGUARD = 64            # octets behind every operand buffer (harness-owned, must stay untouched)
+AGUARD = 256           # octets behind every operand buffer (harness-owned, must stay untouched)
 GUARD = 768            # octets behind the exactly-deep scratch area, owned by the harness, must stay untouched
 POISON = 0xEE
-LIMIT = {'quick': (45000, 8000), 'thorough': (90000, 12000)}     # complete cross product up to this many tuples (all lengths <= 2 / above)
+LIMIT = {'quick': (45000, 8000), 'thorough': (120000, 20000)}     # complete cross product up to this many tuples (all lengths <= 2 / above)
 
 # ------------------------------------------------------------------------------------------ input tuples
 def alias_groups(mode):
